@@ -27,6 +27,13 @@ def _at_depth(d, thunk):
     return _at_depth(d - 1, thunk)
 
 
+def _create(d, thunk):
+    """Create a symbolic call at helper-nesting depth d (d < 0: no helper frame at all)."""
+    if d < 0:
+        return thunk()
+    return _at_depth(d, thunk)
+
+
 def make_fn(nid, fname):
     def fn(*args, **kwargs):
         return RT[0].call(nid, args, kwargs)
@@ -82,11 +89,13 @@ def materialise(spec, b):
     raise ValueError(spec)
 
 
-def build(world, *, with_registry=True):
+def build(world, with_registry=True, _holder=None):
     """Create Plan (and Registry) objects for one process lifetime."""
     import uberjob
 
     b = Built()
+    if _holder is not None:
+        _holder.append(b)
     plan = b.plan = uberjob.Plan()
     any_reg = any(n.get("store") for n in world["nodes"])
     reg = b.registry = uberjob.Registry() if (any_reg and with_registry) else None
@@ -114,7 +123,7 @@ def build(world, *, with_registry=True):
                     b.frames[("node", i)] = fr
                     return node
 
-                remember(i, _at_depth(depth, thunk))
+                remember(i, _create(depth, thunk))
             elif kind == "lit":
                 remember(i, plan.lit(materialise(n["value"], b)))
             elif kind == "gather":
@@ -125,7 +134,7 @@ def build(world, *, with_registry=True):
                     b.frames[("node", i)] = fr
                     return node
 
-                remember(i, _at_depth(depth, thunk))
+                remember(i, _create(depth, thunk))
             elif kind == "unpack":
                 obj = materialise(n["args"][0], b)
 
@@ -134,7 +143,7 @@ def build(world, *, with_registry=True):
                     b.frames[("node", i)] = fr
                     return items
 
-                items = _at_depth(depth, thunk)
+                items = _create(depth, thunk)
                 from uberjob import _builtins as _ub
 
                 t_node = next(
@@ -159,7 +168,7 @@ def build(world, *, with_registry=True):
                     b.frames[("add", i)] = fr
                     return node
 
-                remember(i, _at_depth(depth, thunk))
+                remember(i, _create(depth, thunk))
             else:
                 raise ValueError(kind)
         for d in n.get("deps", ()):
@@ -172,7 +181,7 @@ def build(world, *, with_registry=True):
                 fr, _ = _frames(), reg.add(node, store)
                 b.frames[("add", i)] = fr
 
-            _at_depth(n.get("add_depth", 0), thunk)
+            _create(n.get("add_depth", 0), thunk)
     for u, v in world.get("late_deps", ()):
         plan.add_dependency(b.nodes[u], b.nodes[v])
     for u, v in world.get("back_edges", ()):
@@ -189,7 +198,25 @@ def build(world, *, with_registry=True):
             plan.graph.add_edge(b.nodes[u], tgt, KeywordArg("zz_back", nkw))
     if world.get("output") is not None:
         b.output = materialise(world["output"], b)
+    b.complete = True
     return b
+
+
+def build_in_bare_thread(world):
+    """Build with build() as the bottom frame of a fresh real thread, so that
+    creation sites have very short stacks (C19: shallower than the limit).
+    No simulation is active while this runs."""
+    import _thread
+    import time as _t
+
+    holder = []
+    _thread.start_new_thread(build, (world, True, holder))
+    t0 = _t.time()
+    while not (holder and getattr(holder[0], "complete", False)):
+        if _t.time() - t0 > 20:
+            raise RuntimeError("bare-thread build failed")
+        _t.sleep(0.0002)
+    return holder[0]
 
 
 # --------------------------------------------------------------------------
